@@ -885,3 +885,11 @@ package main
 //@   atcall (*database/sql.Stmt).QueryRow requires (st *sql.Stmt, args []any) :: len(args) == 1 && isType[string](args[0]) && asType[string](args[0]) == username   #C15.profile-read-under-the-given-name @C15
 //@ func (*RuntimeState).GetSigned
 //@   atcall (*database/sql.Stmt).QueryRow requires (st *sql.Stmt, args []any) :: len(args) == 3 && isType[string](args[0]) && asType[string](args[0]) == username && isType[int](args[1]) && asType[int](args[1]) == dataType   #C15.record-read-under-the-given-name-and-type @C15,C07
+
+// ---- C16: an acknowledged change of a profile is not undone by a concurrent request on the same user --------------
+// Every write-back of a user profile would have to happen in the critical section in which the profile was loaded.
+// /repo has no such section: nothing serialises the load - modify - save sequences of concurrent requests, so every
+// function that calls SaveUserProfile writes back a copy that may be stale (each is recorded as a known finding in
+// /verif/known_findings.json, with the history replayed on the real code); a writer that is not in that list is a
+// new violation.
+//@ callers (*RuntimeState).SaveUserProfile only none  #C16.profile-write-back-in-the-critical-section-of-its-load @C16
